@@ -1,4 +1,9 @@
-(* Prop_C18.v — property C18: equivalent spellings behave identically (PARTIAL).
+(* Prop_C18.v — property C18: equivalent spellings behave identically.
+   At the end of the file, from the path TEXT (SpellText.v): C18_equivalent_spellings_from_text — two paths of steps and
+   filters whose steps mean the same are both accepted and return the same results or both fail — with
+   C18_spellings_that_mean_the_same listing the respellings covered (name / quotes, wildcard, signs and leading zeros of
+   indexes and slice bounds, respelled filter operands, number literals); C18_dollar_optional and
+   C18_outer_spaces_same_tree for the leading `$` and the outer blanks.  The earlier, partial statements:
    Proved: (1) what a path selects does not depend on the text / connected-text fields of its nodes
    (C18_values_text_independent, on the specification which the implementation refines exactly): two
    spellings that the parser turns into trees equal up to those texts return the same values and fail
@@ -105,3 +110,72 @@ Theorem C18_outer_spaces_same_tree : forall cfg parse_float regex_ok n1 n2 s r, 
   parse_with cfg parse_float regex_ok jsonpath_grammar (chain_path (s :: r)).
 Proof. exact padded_same_parse. Qed.
 Print Assumptions C18_outer_spaces_same_tree.
+
+
+(* Equivalent spellings in general, from the path text (SpellText.v): two paths of steps and filters (KeyDefs.fchain_path)
+   whose steps mean the same — navigate alike from every value (same_step) — are both accepted and return the same results,
+   or both fail.  And these spellings mean the same: .name / ['name'] / ["name"]; .* / [*]; an index, or the bounds of a
+   slice, written with a plus sign or leading zeros (only the number counts: C18_plus_sign_partial, C18_leading_zero_partial
+   give atoi); a filter whose inner steps are respelled; a comparison whose literal is another spelling of the same number. *)
+From JP Require Import FiltParse CmpParse QueryParse FiltChain FiltAddr CmpAddr FiltChainAddr SpellText.
+Theorem C18_equivalent_spellings_from_text : forall cfg parse_float regex_ok ffun afun regex_match,
+  (forall f v w, small v -> ffun f v = Some w -> small w) ->
+  (forall f l w, Forall small l -> afun f l = Some w -> small w) ->
+  forall x r y s doc st,
+  forallb fstep_ok (x :: r) = true -> forallb (fstep_okp parse_float regex_ok) (x :: r) = true ->
+  forallb fstep_ok (y :: s) = true -> forallb (fstep_okp parse_float regex_ok) (y :: s) = true ->
+  Forall2 (same_step parse_float regex_match) (x :: r) (y :: s) -> small doc -> ok st ->
+  exists t1 t2, parse_with cfg parse_float regex_ok jsonpath_grammar (fchain_path (x :: r)) = ParseOk t1 /\
+                parse_with cfg parse_float regex_ok jsonpath_grammar (fchain_path (y :: s)) = ParseOk t2 /\
+    match fst (eval_run ffun afun regex_match t1 doc st) with
+    | OOk rs => fst (eval_run ffun afun regex_match t2 doc st) = OOk rs
+    | OErr _ => exists e, fst (eval_run ffun afun regex_match t2 doc st) = OErr e
+    | OPanic _ => False
+    end.
+Proof. exact spellings_from_text. Qed.
+Print Assumptions C18_equivalent_spellings_from_text.
+
+Theorem C18_spellings_that_mean_the_same : forall parse_float regex_match,
+  (forall q k, same_rstep (RPlain (SDot k)) (RPlain (SBr q k)) /\ same_rstep (RRec (SDot k)) (RRec (SBr q k))) /\
+  (forall q q' k, same_rstep (RPlain (SBr q k)) (RPlain (SBr q' k)) /\ same_rstep (RRec (SBr q k)) (RRec (SBr q' k))) /\
+  (forall b b', same_rstep (RPlain (SWild b)) (RPlain (SWild b')) /\ same_rstep (RRec (SWild b)) (RRec (SWild b'))) /\
+  (forall t t', atoi t = atoi t' -> same_rstep (RPlain (SIdx t)) (RPlain (SIdx t')) /\ same_rstep (RRec (SIdx t)) (RRec (SIdx t'))) /\
+  (forall a b c a' b' c', bopt a = bopt a' -> bopt b = bopt b' ->
+     match c with Some t => bopt t | None => None end = match c' with Some t => bopt t | None => None end ->
+     same_rstep (RPlain (SSlice a b c)) (RPlain (SSlice a' b' c'))) /\
+  (forall a b, same_rstep a b -> same_step parse_float regex_match (FS a) (FS b)) /\
+  (forall i j, Forall2 same_rstep i j -> same_step parse_float regex_match (FE i) (FE j) /\ same_step parse_float regex_match (FN i) (FN j)) /\
+  (forall i j o lit lit', Forall2 same_rstep i j -> lit_num parse_float lit = lit_num parse_float lit' ->
+     same_step parse_float regex_match (FC i o lit) (FC j o lit')).
+Proof.
+  intros pf rm.
+  split; [intros q k; split; [apply same_plain|apply same_rec]; intros lv; apply name_spellings|].
+  split; [intros q q' k; split; [apply same_plain|apply same_rec]; intros lv; apply quote_spellings|].
+  split; [intros b b'; split; [apply same_plain|apply same_rec]; intros lv; apply wildcard_spellings|].
+  split; [intros t t' H; split; [apply same_plain|apply same_rec]; intros lv; apply index_spellings; exact H|].
+  split; [intros a b c a' b' c' Ha Hb Hc; apply same_plain; intros lv; apply slice_spellings; assumption|].
+  split; [intros a b H; apply same_fs; exact H|].
+  split; [intros i j H; split; [apply filter_spellings|apply negation_spellings]; exact H|].
+  intros i j o lit lit' H E. apply comparison_spellings; assumption.
+Qed.
+Print Assumptions C18_spellings_that_mean_the_same.
+
+(* two spellings of one path: $.a[01]..['b'][?(@.c>1.0)] and $['a'][1]..b[?(@["c"]>1)] *)
+Example C18_spellings_example :
+  let pf := fun s : string => if String.eqb s "1.0" then Some (num_of_Z 1) else if String.eqb s "1" then Some (num_of_Z 1) else None in
+  let rm := fun _ _ : string => false in
+  let p1 := [FS (RPlain (SDot [97])); FS (RPlain (SIdx [48; 49])); FS (RRec (SBr 39 [98])); FC [RPlain (SDot [99])] OGt [49; 46; 48]] in
+  let p2 := [FS (RPlain (SBr 39 [97])); FS (RPlain (SIdx [49])); FS (RRec (SDot [98])); FC [RPlain (SBr 34 [99])] OGt [49]] in
+  fchain_path p1 = [36; 46; 97; 91; 48; 49; 93; 46; 46; 91; 39; 98; 39; 93; 91; 63; 40; 64; 46; 99; 62; 49; 46; 48; 41; 93] /\
+  fchain_path p2 = [36; 91; 39; 97; 39; 93; 91; 49; 93; 46; 46; 98; 91; 63; 40; 64; 91; 34; 99; 34; 93; 62; 49; 41; 93] /\
+  forallb fstep_ok p1 = true /\ forallb fstep_ok p2 = true /\
+  forallb (fstep_okp pf (fun _ => true)) p1 = true /\ forallb (fstep_okp pf (fun _ => true)) p2 = true /\
+  Forall2 (same_step pf rm) p1 p2.
+Proof.
+  cbv zeta. do 6 (split; [vm_compute; reflexivity|]).
+  apply Forall2_cons; [apply same_fs, same_plain; intros lv; apply name_spellings|].
+  apply Forall2_cons; [apply same_fs, same_plain; intros lv; apply index_spellings; vm_compute; reflexivity|].
+  apply Forall2_cons; [apply same_fs, same_rec; intros lv; symmetry; apply name_spellings|].
+  apply Forall2_cons; [|apply Forall2_nil].
+  apply comparison_spellings; [|vm_compute; reflexivity]. apply Forall2_cons; [|apply Forall2_nil]. apply same_plain. intros lv. apply name_spellings.
+Qed.
